@@ -463,6 +463,67 @@ def r_iter_views(ctx, db, est, ln, consts=None):
                        bad[0], show_val(dict((l, a) for l, a, b in pairs)[bad[0]])[:120], show_val(dict((l, b) for l, a, b in pairs)[bad[0]])[:120]))
 
 
+def r_views_special_values(ctx, db, est, ln, consts=None):
+    """widths() and centers() on a concrete edge vector with infinite outer edges (documented as legal
+    for from_ranges): the values are evaluated with IEEE semantics — (-inf + x)/2 = -inf,
+    inf - x = inf — which the real-number comparison of R-LAW L8 cannot see"""
+    import math
+    TR = "traits::Histogram"
+    if ln < 1:
+        return
+    edges = [-math.inf] + [float(2 * i - ln) for i in range(1, ln)] + [math.inf]
+    for name, spec in (("widths", lambda a, b: b - a), ("centers", lambda a, b: 0.5 * (a + b))):
+        gp = est.m(name, None) or est.m(name, TR) or ((TR + "::" + name) if (TR + "::" + name) in db.fns else None)
+        if gp is None:
+            continue
+
+        def setup(m, gp=gp):
+            a, ea, ba, rng, bn = hist_state(m, est, "self")
+            fs = {n_: x for n_, x in zip(a.v.names, a.v.fields)}
+            fs[rng].elems[:] = [F.lit(e) for e in edges]
+            ref = VRef(a, (), False)
+            import summaries as S
+            nref = {"fn": "core::iter::traits::iterator::Iterator::next", "trait": "core::iter::traits::iterator::Iterator", "name": "next"}
+
+            def thunk():
+                cell = Cell(call(m, gp, [ref]))
+                out = []
+                for _ in range(ln + 1):
+                    o = S.iter_next(m, nref, [VRef(cell, (), True)], None, None)
+                    if o.variant == 0:
+                        break
+                    out.append(o.fields[0])
+                return out
+            return thunk, {}
+        paths, stats = explore(db, setup, Config(release=True, finite=False, fold_inexact=True, consts=consts or {}), 64)
+        ctx.count_run(Run(gp, paths, stats, "special-" + name))
+        key = "L8:%s:infinite-outer-edges:LEN=%d" % (name, ln)
+        for p in paths:
+            if p.status != "return":
+                if p.status == "panic" and is_debug_only(p.info.get("span") or {}):
+                    continue
+                ctx.ob("R-LAW", key, gp, R.fn_site(db, gp), False, "%s() on edges %s: %s %s" % (name, edges, p.status, p.info.get("kind") or p.info.get("why")),
+                       inc=p.status == "inconclusive", d7=False)
+                continue
+            vals = p.ret
+            want = [spec(edges[j], edges[j + 1]) for j in range(ln)]
+            bad = None
+            if len(vals) != ln:
+                bad = "%d values" % len(vals)
+            else:
+                for j, (v, w) in enumerate(zip(vals, want)):
+                    if not (is_float(v) and F.is_lit(v)):
+                        bad = "bin %d: %s is not a constant" % (j, show_val(v)[:60])
+                        break
+                    x = F.litval(v)
+                    if not ((x != x and w != w) or x == w):
+                        bad = "bin %d: %r, C13's formula gives %r" % (j, x, w)
+                        break
+            ctx.ob("R-LAW", key, gp, R.fn_site(db, gp), bad is None,
+                   "%s() on edges %s equals the formula evaluated in IEEE arithmetic" % (name, edges) if bad is None else
+                   "%s() on edges %s: %s" % (name, edges, bad), d7=False)
+
+
 def r_hist_clone(ctx, db, est, ln, consts=None):
     """histories include clone: clone() is an exact copy; a hand-written clone_from as well"""
     CL = "core::clone::Clone"
@@ -770,18 +831,22 @@ def r_accessors(ctx, db, est, ln, consts=None):
     m = Machine(db, [], Config(release=True, consts=consts or {}))
     a, ea, ba, rng, bn = hist_state(m, est, "self")
     ref = VRef(a, (), False)
-    checks = [("range_min", ea[0]), ("range_max", ea[-1])]
-    for name, want in checks:
-        fp = est.m(name, None)
-        if fp is None:
-            ctx.floor("%s::%s present" % (est.path, name), 0, 1)
-            continue
-        try:
-            got = call(m, fp, [ref])
-        except (PathEnd, Unsupported) as e:
-            ctx.ob("R-IDENT", "%s:LEN=%d" % (name, ln), fp, R.fn_site(db, fp), False, "%s: %s" % (name, e), inc=True)
-            continue
-        ctx.ob("R-IDENT", "%s:LEN=%d" % (name, ln), fp, R.fn_site(db, fp), got == want, "%s() returns %s (stored edge %s)" % (name, show_val(got)[:40], show_val(want)[:40]))
+    # the limits are the first and the last stored edge as they are: also for the (legal) histogram
+    # `with_const_width(start, end)` with start > end, whose edges descend and which find() treats as empty
+    m2 = Machine(db, [], Config(release=True, consts=consts or {}))
+    a2, ea2, _ba2, _r2, _b2 = hist_state(m2, est, "self", strict=False, sorted_edges=False)
+    for mm, rr, edges, tag in ((m, ref, ea, ""), (m2, VRef(a2, (), False), ea2, ":any-edge-order")):
+        for name, want in (("range_min", edges[0]), ("range_max", edges[-1])):
+            fp = est.m(name, None)
+            if fp is None:
+                ctx.floor("%s::%s present" % (est.path, name), 0, 1)
+                continue
+            try:
+                got = call(mm, fp, [rr])
+            except (PathEnd, Unsupported) as e:
+                ctx.ob("R-IDENT", "%s%s:LEN=%d" % (name, tag, ln), fp, R.fn_site(db, fp), False, "%s: %s" % (name, e), inc=True)
+                continue
+            ctx.ob("R-IDENT", "%s%s:LEN=%d" % (name, tag, ln), fp, R.fn_site(db, fp), got == want, "%s() returns %s (stored edge %s)" % (name, show_val(got)[:40], show_val(want)[:40]))
     for name, want in (("ranges", ea), ("bins", ba)):
         fp = est.m(name, None) or est.m(name, "traits::Histogram")
         if fp is None:
